@@ -43,9 +43,9 @@ impl Syllable {
         Self {segments: VecDeque::new(), stress: StressKind::default(), tone: 0}
     }
 
-    pub(crate) fn replace_segment(&mut self, pos: usize, seg: &Segment, mods: &Option<Modifiers>, alphas: &RefCell<HashMap<char, Alpha>>, err_pos: Position) -> Result<i8, RuleRuntimeError> {
+    pub(crate) fn replace_segment(&mut self, pos: usize, seg: &Segment, mods: &Option<Modifiers>, alphas: &RefCell<HashMap<char, Alpha>>, err_pos: Position) -> Result<isize, RuleRuntimeError> {
         let mut seg_len = self.get_seg_length_at(pos);
-        let mut lc = 1 - seg_len as i8;
+        let mut lc = 1 - seg_len as isize;
 
         while seg_len > 1 {
             self.segments.remove(pos+1);
@@ -79,7 +79,7 @@ impl Syllable {
         vec
     }
 
-    pub(crate) fn insert_segment(&mut self, pos: usize, seg: &Segment, mods: &Option<Modifiers>, alphas: &RefCell<HashMap<char, Alpha>>, err_pos: Position) -> Result<i8, RuleRuntimeError> {
+    pub(crate) fn insert_segment(&mut self, pos: usize, seg: &Segment, mods: &Option<Modifiers>, alphas: &RefCell<HashMap<char, Alpha>>, err_pos: Position) -> Result<isize, RuleRuntimeError> {
         let mut lc = 0;
         if pos > self.segments.len() {
             self.segments.push_back(*seg);
@@ -104,7 +104,7 @@ impl Syllable {
         len
     }
 
-    pub(crate) fn apply_seg_mods(&mut self, alphas: &RefCell<HashMap<char, Alpha>>, mods: &Modifiers, start_pos: usize, err_pos: Position) -> Result<i8, RuleRuntimeError> {
+    pub(crate) fn apply_seg_mods(&mut self, alphas: &RefCell<HashMap<char, Alpha>>, mods: &Modifiers, start_pos: usize, err_pos: Position) -> Result<isize, RuleRuntimeError> {
         // check seg length, if long then we must apply mods to all occurences (we assume that we are at the start)
         // debug_assert!(self.in_bounds(start_pos));
         let mut pos = start_pos;
@@ -119,7 +119,7 @@ impl Syllable {
         self.apply_supras(alphas, &mods.suprs, start_pos, err_pos)
     }
 
-    pub(crate) fn apply_supras(&mut self, alphas: &RefCell<HashMap<char, Alpha>>, mods: &SupraSegs, pos: usize, err_pos: Position) -> Result<i8, RuleRuntimeError> {
+    pub(crate) fn apply_supras(&mut self, alphas: &RefCell<HashMap<char, Alpha>>, mods: &SupraSegs, pos: usize, err_pos: Position) -> Result<isize, RuleRuntimeError> {
         let seg = self.segments[pos];
         let mut seg_len = self.get_seg_length_at(pos);
         let mut len_change = 0;
